@@ -44,6 +44,7 @@ func loadWorld() *World {
 	if u := os.Getenv("MQVC_UNROLL"); u != "" {
 		fmt.Sscan(u, &w.unroll)
 	}
+	w.propForInv = os.Getenv("MQVC_PROP_INTERNAL")
 	w.scanGlobalInits(pkgs[0])
 	w.contracts, err = readContracts(repoDir + "/contracts_verif.go")
 	if err != nil {
@@ -66,7 +67,9 @@ func loadWorld() *World {
 			}
 			c.Requires = append(c.Requires, ti.Clause)
 			c.Ensures = append(c.Ensures, ti.Clause)
-			w.invariantMethods = append(w.invariantMethods, name)
+			if clauseActive(ti.Clause.Tags, w.propForInv) {
+				w.invariantMethods = append(w.invariantMethods, name)
+			}
 		}
 	}
 	for name := range w.contracts {
@@ -106,6 +109,19 @@ func (w *World) buildVC(fn *ssa.Function) *VC {
 	}
 	for _, fv := range fn.FreeVars {
 		fr.vals[fv] = fr.havoc(fv.Type(), "fv_"+fv.Name())
+	}
+	// Go objects do not partially overlap: two struct pointers among the parameters
+	// are the same object (same type) or denote disjoint memory
+	for i, p := range fn.Params {
+		if !isStructPtr(p.Type()) {
+			continue
+		}
+		vc.rootObjs = append(vc.rootObjs, rootObj{fr.vals[p].L[0], elemOf(p.Type())})
+		for _, q := range fn.Params[:i] {
+			if isStructPtr(q.Type()) {
+				vc.assume(objApart(fr.vals[p].L[0], elemOf(p.Type()), fr.vals[q].L[0], elemOf(q.Type())))
+			}
+		}
 	}
 	w.globalAssumptions(vc, fr)
 	if len(w.secrets) > 0 && w.taintRoots[shortFuncName(fn.String())] {
@@ -389,3 +405,28 @@ func main() {
 }
 
 var _ = token.NoPos
+
+type rootObj struct {
+	addr string
+	t    types.Type
+}
+
+func isStructPtr(t types.Type) bool {
+	pt, ok := t.Underlying().(*types.Pointer)
+	if !ok {
+		return false
+	}
+	_, ok = pt.Elem().Underlying().(*types.Struct)
+	return ok
+}
+
+// objApart: object a (type ta) and object b (type tb) are nil, the same object
+// of the same type, or do not overlap.
+func objApart(a string, ta types.Type, b string, tb types.Type) string {
+	na, nb := intLit(int64(allocSlots(ta))), intLit(int64(allocSlots(tb)))
+	alts := []string{eq(a, "0"), eq(b, "0"), le(add(a, na), b), le(add(b, nb), a)}
+	if types.Identical(ta, tb) {
+		alts = append(alts, eq(a, b))
+	}
+	return or(alts...)
+}
